@@ -12,9 +12,6 @@ use verif_harness::util::*;
 mod common;
 use common::*;
 
-struct Hist(BTreeMap<String, u64>);
-impl Hist { fn bump(&mut self, k: &str) { *self.0.entry(k.to_string()).or_insert(0) += 1; } }
-
 const INT_BOUNDS: [i32; 36] = [
     0, 1, -1, 2, 126, 127, 128, 129, -127, -128, -129, 254, 255, 256, 257, 32766, 32767, 32768, 32769, -32767, -32768, -32769,
     65534, 65535, 65536, 65537, 70000, 300, -200, 0x7fffffff, -0x7fffffff, i32::MIN, 0x12345678, -0x12345678, 1000, -1000,
@@ -81,8 +78,6 @@ fn gen_sig(rng: &mut Rng, lang: Lang, h: &mut Hist) -> Vec<P> {
     ps
 }
 
-fn int_size(c: char) -> (u8, bool) { let (_, s, sg) = INT_CHARS.iter().find(|x| x.0 == c).copied().unwrap(); (s, sg) }
-
 fn gen_int(rng: &mut Rng, size: u8, signed: bool, h: &mut Hist) -> i32 {
     let (lo, hi): (i64, i64) = match (size, signed) { (1, true) => (-128, 127), (1, false) => (0, 255), (2, true) => (-32768, 32767), (2, false) => (0, 65535), _ => (i32::MIN as i64, i32::MAX as i64) };
     match rng.below(10) {
@@ -135,208 +130,6 @@ fn gen_args(rng: &mut Rng, lang: Lang, ps: &[P], h: &mut Hist) -> Vec<A> {
     }
     if rng.chance(1, 40) { if rng.chance(1, 2) && !args.is_empty() { args.pop(); } else { args.push(A::int(1)); } h.bump("mutated_arity"); }
     args
-}
-
-fn script_body(calls: &[(usize, Vec<A>)]) -> String {
-    let mut s = String::new();
-    for (k, args) in calls { s.push_str(&format!("    ins_{}({});\n", 900 + k, args.iter().map(|a| a.src()).collect::<Vec<_>>().join(", "))); }
-    s
-}
-fn one_line(s: &str) -> String { s.replace('\n', "\u{23ce}").replace('\t', " ").replace('\r', "\\r") }
-
-fn all_strings(calls: &[(usize, Vec<A>)]) -> Vec<String> {
-    let mut v = vec![];
-    for (_, args) in calls { for a in args { if let V::Str(s) = &a.v { v.push(s.clone()); } } }
-    v
-}
-
-fn names_table() -> BTreeMap<String, i32> {
-    let mut m = BTreeMap::new();
-    m.insert("script0".to_string(), 0);
-    m
-}
-
-/// runs a script of calls; prints the KComp case, KDecomp cases for each resulting instruction, and oracle lines
-fn run_script(lang: Lang, sigs: &[Vec<P>], calls: &[(usize, Vec<A>)], h: &mut Hist, rng: &mut Rng, mutate: bool) {
-    let sig_lines: Vec<(u16, String)> = sigs.iter().enumerate().map(|(k, ps)| (900 + k as u16, sig_text(ps))).collect();
-    let mapfile = lang.mapfile(&sig_lines, "");
-    let text = lang.source(&script_body(calls));
-    let input = format!("{}|{}|{}", lang.name(), one_line(&mapfile), one_line(&text));
-    let res = compile(lang, &mapfile, &text);
-    h.bump(&format!("compile_{}", res.class()));
-    let sigs_coq = format!("[{}]", sigs.iter().map(|ps| sig_coq(ps)).collect::<Vec<_>>().join("; "));
-    let calls_coq = format!("[{}]", calls.iter().map(|(k, a)| format!("({}%nat, {})", k, args_coq(a))).collect::<Vec<_>>().join("; "));
-    let sj = sj_table(&all_strings(calls));
-    let obs = match &res {
-        Outcome::Ok((c, w, _)) => format!("(IOk ([{}], {}))", c.instrs().iter().map(|r| Obs::of(r).coq()).collect::<Vec<_>>().join("; "), wlist(w)),
-        Outcome::Err(_) => "IErr".to_string(),
-        Outcome::Panic(_) => "IPanic".to_string(),
-    };
-    println!("COMP\tKComp {} {} {} {} {} {}\t{}", b(lang.has_regs()), b(lang.has_arg0()), sigs_coq, calls_coq, sj, obs, input);
-    match &res {
-        Outcome::Panic(p) => println!("ORACLE-FAIL\t{}: panic while compiling\t{}\t{}", panic_class(p), one_line(p), input),
-        Outcome::Err(d) => {
-            // (O) a call whose arguments have exactly the types of the non-padding parameters is not a type error
-            if calls.iter().all(|(k, args)| well_typed(lang, &sigs[*k], args)) && d.contains("type error") && sigs.iter().all(|ps| sig_valid(lang, ps)) {
-                println!("ORACLE-FAIL\tcall-typing: well-typed call rejected with a type error\t{}\t{}", one_line(&d.chars().take(300).collect::<String>()), input);
-            }
-        },
-        Outcome::Ok((compiled, warns, _)) => {
-            let instrs = compiled.instrs();
-            if instrs.len() != calls.len() { println!("ORACLE-FAIL\tshape: number of compiled instructions differs from the number of calls\t{} vs {}\t{}", instrs.len(), calls.len(), input); return; }
-            let mut furi_pending = false;   // a furigana line ("|...") was written by an earlier furibug string
-            for (idx, raw) in instrs.iter().enumerate() {
-                let ps = &sigs[calls[idx].0];
-                let want = &calls[idx].1;
-                let nonpad: Vec<&P> = ps.iter().filter(|p| !p.is_pad()).collect();
-                let furi_in = furi_pending;
-                for (p, a) in nonpad.iter().zip(want.iter()) {
-                    if let (P::Str { furibug: true, .. }, V::Str(st)) = (p, &a.v) { furi_pending = st.starts_with('|'); }
-                }
-                // a jump offset that is not an instruction offset: the script cannot be decompiled at all (not this property)
-                if nonpad.iter().zip(want.iter()).any(|(p, a)| matches!(p, P::Off) && *a != A::int(0)) { h.bump("decompile_skipped_invalid_jump"); continue; }
-                let single = compiled.with_instrs(vec![raw.clone()]);
-                let single_map = lang.mapfile(&[(raw.opcode, sig_text(ps))], "");
-                let dres = decompile(lang, &single_map, &single, false);
-                emit_decomp(lang, ps, raw, &dres, &input, h);
-                // (O) compile -> decompile -> compare argument by argument
-                let unfit = nonpad.iter().zip(want.iter()).any(|(p, a)| !int_fits(p, a));
-                let has_nul = want.iter().any(|a| matches!(&a.v, V::Str(st) if st.contains('\0')));
-                let nulless_furi = furi_in && nonpad.iter().any(|p| matches!(p, P::Str { sz: SSize::Fixed(_, true), furibug: true, .. }));
-                let diagnosed = !warns.is_empty();
-                let got: Option<Vec<A>> = match &dres {
-                    Outcome::Ok((file, _, _)) => match call_args(file, &names_table()) { Ok(cs) if cs.len() == 1 => Some(cs[0].1.clone()), _ => None },
-                    _ => None,
-                };
-                let changed = match (&dres, &got) { (Outcome::Ok(_), Some(g)) => g != want, (Outcome::Ok(_), None) => false, _ => true };
-                let detail = format!("wrote {:?} read {} signature {}", want, match (&dres, &got) { (_, Some(g)) => format!("{:?}", g), (Outcome::Err(d), _) => format!("error {}", one_line(&d.chars().take(200).collect::<String>())), (Outcome::Panic(p), _) => format!("panic {}", one_line(p)), _ => "?".into() }, sig_text(ps));
-                if let Outcome::Panic(p) = &dres { println!("ORACLE-FAIL\t{}: panic while decompiling what was just compiled\t{}\t{}", panic_class(p), one_line(p), input); }
-                else if changed && !diagnosed && !has_nul {
-                    if unfit { println!("ORACLE-FAIL\tnarrowing: an integer argument that does not fit its field was stored truncated without a diagnostic\t{}\t{}", detail, input); }
-                    else if nulless_furi { println!("ORACLE-FAIL\tnulless-furibug: a nulless furibug string after a furigana line does not read back\t{}\t{}", detail, input); }
-                    else { println!("ORACLE-FAIL\troundtrip: arguments changed by compile+decompile without a diagnostic\t{}\t{}", detail, input); }
-                } else if unfit && !diagnosed && !changed && got.is_some() {
-                    // an out-of-range value that nevertheless reads back identically (e.g. -1 in a 4-byte unsigned field) is fine
-                    h.bump("unfit_but_roundtrips");
-                }
-                // decoder on damaged instructions: truncated / extended blob, stray mask bits, nonzero padding
-                if mutate && rng.chance(1, 2) && !ps.iter().any(|p| matches!(p, P::Off)) {
-                    let mut r2 = raw.clone();
-                    match rng.below(5) {
-                        0 => { let k = rng.below(r2.args_blob.len() as u64 + 1) as usize; r2.args_blob.truncate(k); h.bump("damage_truncate"); },
-                        1 => { for _ in 0..(1 + rng.below(4)) { r2.args_blob.push(rng.below(3) as u8); } h.bump("damage_extend"); },
-                        2 => {
-                            // (not on float parameters: a random float with the register bit set is "a register" only if it is an integer,
-                            //  and then the register id does not determine the bits any more)
-                            let cand: Vec<u32> = (0..16u32).filter(|&i| (i as usize) >= nonpad.len() || !matches!(nonpad[i as usize], P::Float { .. })).collect();
-                            if lang.has_regs() && !cand.is_empty() { r2.param_mask ^= 1 << *rng.pick(&cand); }
-                            h.bump("damage_mask");
-                        },
-                        3 => { if !r2.args_blob.is_empty() { let k = rng.below(r2.args_blob.len() as u64) as usize; r2.args_blob[k] ^= 1 << rng.below(8); } h.bump("damage_bitflip"); },
-                        _ => { if !r2.args_blob.is_empty() { let k = rng.below(r2.args_blob.len() as u64) as usize; r2.args_blob[k] = 0; } h.bump("damage_zero_byte"); },
-                    }
-                    let damaged = compiled.with_instrs(vec![r2.clone()]);
-                    let dres2 = decompile(lang, &single_map, &damaged, false);
-                    if let Outcome::Panic(p) = &dres2 { println!("ORACLE-FAIL\t{}: panic while decompiling\t{}\tblob={:?} mask={} sig={} lang={}", panic_class(p), one_line(p), r2.args_blob, r2.param_mask, sig_text(ps), lang.name()); }
-                    emit_decomp(lang, ps, &r2, &dres2, &input, h);
-                }
-            }
-        },
-    }
-}
-
-fn panic_class(p: &str) -> &'static str {
-    if p.contains("remainder with a divisor of zero") { "bs-zero" }
-    else if p.starts_with("SimpleArg {") { "call-typing" }
-    else if p.contains("index out of bounds") { "intrinsic-padding" }
-    else { "panic" }
-}
-
-/// does the value fit the field the parameter declares (the harness' own notion, from the format character)
-fn int_fits(p: &P, a: &A) -> bool {
-    match (p, &a.v) {
-        (P::Int { arg0: true, .. }, V::Int(v)) => -32768 <= *v && *v <= 32767,
-        (P::Int { c, .. }, V::Int(v)) => {
-            let (size, signed) = int_size(*c);
-            let v = *v as i64;
-            match (size, signed) { (1, true) => -128 <= v && v <= 127, (1, false) => 0 <= v && v <= 255, (2, true) => -32768 <= v && v <= 32767, (2, false) => 0 <= v && v <= 65535, _ => true }
-        },
-        _ => true,
-    }
-}
-fn well_typed(lang: Lang, ps: &[P], args: &[A]) -> bool {
-    let nonpad: Vec<&P> = ps.iter().filter(|p| !p.is_pad()).collect();
-    nonpad.len() == args.len() && nonpad.iter().zip(args).all(|(p, a)| match (p, &a.v) {
-        (P::Int { arg0, .. }, V::Int(_)) => !(*arg0 && a.reg),
-        (P::Off, V::Int(_)) | (P::Time, V::Int(_)) => !a.reg,
-        (P::Float { .. }, V::Float(_)) => true,
-        (P::Str { .. }, V::Str(_)) => !a.reg,
-        _ => false,
-    }) && (lang.has_regs() || args.iter().all(|a| !a.reg))
-}
-/// the harness' own reading of abi.rs validate + validate_against_language
-fn sig_valid(lang: Lang, ps: &[P]) -> bool {
-    let o = ps.iter().filter(|p| matches!(p, P::Off)).count();
-    let t = ps.iter().filter(|p| matches!(p, P::Time)).count();
-    let arg0_ok = ps.iter().enumerate().all(|(i, p)| match p { P::Int { arg0: true, c, .. } => i == 0 && lang.has_arg0() && int_size(*c).0 <= 2, _ => true });
-    let block_ok = ps.iter().enumerate().all(|(i, p)| match p { P::Str { sz: SSize::Block(_), .. } => i + 1 == ps.len(), _ => true });
-    o <= 1 && t <= 1 && !(t == 1 && o == 0) && arg0_ok && block_ok
-}
-
-fn emit_decomp(lang: Lang, ps: &[P], raw: &truth::llir::RawInstr, dres: &Outcome<(truth::ast::ScriptFile, Vec<u32>, String)>, input: &str, h: &mut Hist) {
-    h.bump(&format!("decompile_{}", dres.class()));
-    let table = decode_table(ps, raw);
-    let obs = match dres {
-        Outcome::Ok((file, w, _)) => match call_args(file, &names_table()) {
-            Ok(cs) if cs.len() == 1 => {
-                let w2: Vec<u32> = w.iter().copied().filter(|x| *x != W_BADOFFSET).collect();
-                format!("(IOk ({}, {}))", args_coq(&cs[0].1), wlist(&w2))
-            },
-            Ok(_) => { h.bump("decomp_skipped_shape"); return; },
-            Err(why) => { h.bump(&format!("decomp_skipped:{}", why.split(' ').next().unwrap_or(""))); return; },
-        },
-        Outcome::Err(_) => "IErr".to_string(),
-        Outcome::Panic(_) => "IPanic".to_string(),
-    };
-    println!("DECOMP\tKDecomp {} {} {} {} {} {} {}\t{} >> blob={:?} mask={} extra={:?} sig={}", b(lang.has_arg0()), sig_coq(ps), bytes_term(&raw.args_blob), raw.param_mask,
-             match raw.extra_arg { Some(x) => format!("(Some {})", z(x as i64)), None => "None".into() }, table, obs, input, raw.args_blob, raw.param_mask, raw.extra_arg, sig_text(ps));
-}
-
-/// Shift-JIS decoding table for the model: for each string parameter, the window of the blob it occupies (computed from the
-/// harness' own table of field sizes), unmasked and trimmed at the first NUL, with what encoding_rs decodes it to.
-fn decode_table(ps: &[P], raw: &truth::llir::RawInstr) -> String {
-    let mut seen = std::collections::BTreeSet::new();
-    let mut out = vec![];
-    let blob = &raw.args_blob;
-    let mut off = 0usize;
-    for p in ps {
-        match p {
-            P::Int { c, arg0, .. } => if !*arg0 { off += int_size(*c).0 as usize; },
-            P::Float { .. } | P::Off | P::Time => off += 4,
-            P::Pad(c) => off += if *c == '_' { 4 } else { 1 },
-            P::Str { sz, mask, .. } => {
-                let (start, len) = match sz {
-                    SSize::Block(_) => (off, blob.len().saturating_sub(off)),
-                    SSize::Fixed(len, _) => (off, *len as usize),
-                    SSize::Pascal(_) => {
-                        if off + 4 > blob.len() { break; }
-                        (off + 4, u32::from_le_bytes([blob[off], blob[off + 1], blob[off + 2], blob[off + 3]]) as usize)
-                    },
-                };
-                if start > blob.len() || len > blob.len() - start { break; }
-                let mut m = mask[0]; let mut v = mask[1]; let a = mask[2];
-                let mut un = vec![];
-                for &x in &blob[start..start + len] { un.push(x ^ m); m = m.wrapping_add(v); v = v.wrapping_add(a); }
-                let t: Vec<u8> = match un.iter().position(|&x| x == 0) { Some(i) => un[..i].to_vec(), None => un };
-                if seen.insert(t.clone()) {
-                    let r = match sjis_decode(&t) { Some(s) => format!("Some {}", str_term(&s)), None => "None".into() };
-                    out.push(format!("({}, {})", bytes_term(&t), r));
-                }
-                off = start + len;
-            },
-        }
-    }
-    format!("[{}]", out.join("; "))
 }
 
 fn codec(rng: &mut Rng, n: usize) {
@@ -426,21 +219,36 @@ fn main() {
         Some("intrinsic") => intrinsic::run(&mut rng, args.get(2).and_then(|s| s.parse().ok()).unwrap_or(100)),
         Some("replay") => {
             // <lang>|<mapfile>|<source> as printed in the third column
-            let line = std::fs::read_to_string(&args[2]).expect("read");
+            let line = std::fs::read_to_string(&args[2]).expect("read").lines().next().unwrap_or("").to_string();
             let mut it = line.trim_end().splitn(3, '|');
             let lang = match it.next() { Some("msg12") => Lang::Msg, Some("timeline06") => Lang::Timeline, _ => Lang::Anm };
             let mapfile = it.next().unwrap_or("").replace('\u{23ce}', "\n");
             let text = it.next().unwrap_or("").replace('\u{23ce}', "\n");
             let res = compile(lang, &mapfile, &text);
+            let input = one_line(line.trim_end());
+            // the arguments as written in the source
+            let want: Vec<Vec<A>> = reparse(&text).and_then(|f| call_args(&f, &names_table()).ok()).map(|cs| cs.into_iter().map(|c| c.1).collect()).unwrap_or_default();
             match &res {
-                Outcome::Panic(p) => println!("ORACLE-FAIL\tpanic while compiling\t{}\t{}", one_line(p), one_line(line.trim_end())),
+                Outcome::Panic(p) => println!("ORACLE-FAIL\t{}: panic while compiling\t{}\t{}", panic_class(p), one_line(p), input),
                 Outcome::Err(d) => println!("REPLAY\tcompile error\t{}", one_line(d)),
                 Outcome::Ok((c, w, _)) => {
-                    println!("REPLAY\tcompiled\t{:?}\twarnings {:?}", c.instrs().iter().map(Obs::of).collect::<Vec<_>>(), w);
-                    match decompile(lang, &mapfile, c, false) {
-                        Outcome::Ok((f, w, _)) => println!("REPLAY\tdecompiled\t{:?}\twarnings {:?}", call_args(&f, &names_table()), w),
-                        Outcome::Err(d) => println!("REPLAY\tdecompile error\t{}", one_line(&d)),
-                        Outcome::Panic(p) => println!("ORACLE-FAIL\tpanic while decompiling\t{}\t{}", one_line(&p), one_line(line.trim_end())),
+                    let instrs = c.instrs();
+                    println!("REPLAY\tcompiled\t{:?}\twarnings {:?}", instrs.iter().map(Obs::of).collect::<Vec<_>>(), w);
+                    for (idx, raw) in instrs.iter().enumerate() {
+                        let single = c.with_instrs(vec![raw.clone()]);
+                        match decompile(lang, &mapfile, &single, false) {
+                            Outcome::Ok((f, dw, _)) => {
+                                let got = call_args(&f, &names_table());
+                                println!("REPLAY\tdecompiled\t{:?}\twarnings {:?}", got, dw);
+                                if let (Ok(g), Some(wnt)) = (&got, want.get(idx)) {
+                                    if g.len() == 1 && &g[0].1 != wnt && w.is_empty() {
+                                        println!("ORACLE-FAIL\treplay: arguments changed by compile+decompile without a diagnostic\twrote {:?} read {:?}\t{}", wnt, g[0].1, input);
+                                    }
+                                }
+                            },
+                            Outcome::Err(d) => println!("ORACLE-FAIL\treplay: error while decompiling what was just compiled\t{}\t{}", one_line(&d.chars().take(300).collect::<String>()), input),
+                            Outcome::Panic(p) => println!("ORACLE-FAIL\t{}: panic while decompiling\t{}\t{}", panic_class(&p), one_line(&p), input),
+                        }
                     }
                 },
             }
